@@ -1,2 +1,3 @@
 pub mod link;
 pub mod transport;
+pub mod app;
